@@ -36,14 +36,14 @@ import (
 )
 
 type params struct {
-	role    string // "refclient" or "refserver"
-	legacy  bool
-	iat     int
-	biased  bool
-	steer   int // 0 none, 1 real side draws minimum padding, 2 maximum
-	refPad  int // -1 PRNG, else exact
-	chunk   int // chunk policy index for what the REAL side reads
-	seed    uint64
+	role   string // "refclient" or "refserver"
+	legacy bool
+	iat    int
+	biased bool
+	steer  int // 0 none, 1 real side draws minimum padding, 2 maximum
+	refPad int // -1 PRNG, else exact
+	chunk  int // chunk policy index for what the REAL side reads
+	seed   uint64
 }
 
 func (p params) String() string {
@@ -245,12 +245,17 @@ func runConn(c *mon.Case, r *mon.Run, dir string, p params) {
 		var serr error
 		done := make(chan struct{})
 		c.Go(func() { close(done) }, func() { sc, serr = sf.WrapConn(sw) })
-		rc, hello, sr, err := o4.RefDial(cw, b.Ref, rng, p.refPad, o4.Hours(0))
+		// the reference client's clock is in the server's hour or in an
+		// adjacent one (accepted window); it verifies the response under the
+		// hour it used itself
+		hoff := int(p.seed>>9%3) - 1
+		r.Count(fmt.Sprintf("refclient_hour_offset_%+d", hoff), 1)
+		rc, hello, sr, err := o4.RefDial(cw, b.Ref, rng, p.refPad, o4.Hours(int64(hoff)))
 		<-done
 		restore()
 		_ = hello
 		if err != nil || serr != nil {
-			viol("interop/handshake-refclient", "reference client err=%v, real server err=%v", err, serr)
+			viol("interop/handshake-refclient", "reference client (clock %+d h) err=%v, real server err=%v", hoff, err, serr)
 			ok = false
 			break
 		}
@@ -417,7 +422,7 @@ func TestCheck(t *testing.T) {
 	r := mon.Start(t, "C06")
 	defer r.Finish()
 	_ = rand.Reader
-	r.Note("rule", "every connection has the independent reference implementation on one side: grid of role (reference client vs real server / real client vs reference server) x bridge-line form (cert / legacy node-id+public-key) x IAT mode x table bias x chunking of what the real side reads x padding choice (PRNG, reference at both extremes, real side steered to its minimum and maximum), fresh identity and seed per connection, PRNG payload scripts both ways with reference frames of varied payload/padding split; plus known-answer comparison of ntor.Kdf, the DRBG and framing with the reference on random inputs. Non-trivial = handshake completed and all payload verified in both directions; distinct = distinct parameter tuple.")
+	r.Note("rule", "every connection has the independent reference implementation on one side: grid of role (reference client vs real server / real client vs reference server) x bridge-line form (cert / legacy node-id+public-key) x IAT mode x table bias x chunking of what the real side reads x reference-client clock in the hour before / the same / the hour after the server's x padding choice (PRNG, reference at both extremes, real side steered to its minimum and maximum), fresh identity and seed per connection, PRNG payload scripts both ways with reference frames of varied payload/padding split; plus known-answer comparison of ntor.Kdf, the DRBG and framing with the reference on random inputs. Non-trivial = handshake completed and all payload verified in both directions; distinct = distinct parameter tuple.")
 	dir := o4.StateDir("c06")
 	nPer := r.Pick(2, 16)
 	for _, role := range []string{"refclient", "refserver"} {
